@@ -34,7 +34,16 @@ import (
 var (
 	DsimLockHook   func(id uintptr, name string)
 	DsimUnlockHook func(id uintptr, name string)
+	// DsimPointHook is called at extra pre-emption points that the rewrite places behind calls into the
+	// (de)compressors, which filesystems share between all their readers.
+	DsimPointHook func(name string)
 )
+
+func dsimPoint(name string) {
+	if DsimPointHook != nil {
+		DsimPointHook(name)
+	}
+}
 
 func dsimLock[T any](p *T, name string) {
 	l, ok := any(p).(sync.Locker)
@@ -111,6 +120,7 @@ func main() {
 	files, _ := filepath.Glob(filepath.Join(pkgDir, "*.go"))
 	replace := map[string]string{}
 	rewritten := 0
+	points := 0
 	for _, f := range files {
 		if strings.HasSuffix(f, "_test.go") {
 			continue
@@ -149,6 +159,41 @@ func main() {
 			rewritten++
 			return true
 		})
+		// a pre-emption point behind every statement that calls compress/decompress of a compressor
+		ast.Inspect(af, func(n ast.Node) bool {
+			bl, ok := n.(*ast.BlockStmt)
+			if !ok {
+				return true
+			}
+			var out []ast.Stmt
+			for _, st := range bl.List {
+				out = append(out, st)
+				switch st.(type) {
+				case *ast.AssignStmt, *ast.ExprStmt:
+				default:
+					continue
+				}
+				calls := false
+				ast.Inspect(st, func(m ast.Node) bool {
+					if _, isLit := m.(*ast.FuncLit); isLit {
+						return false
+					}
+					if ce, ok := m.(*ast.CallExpr); ok {
+						if se, ok := ce.Fun.(*ast.SelectorExpr); ok && (se.Sel.Name == "decompress" || se.Sel.Name == "compress") {
+							calls = true
+						}
+					}
+					return true
+				})
+				if calls {
+					out = append(out, &ast.ExprStmt{X: &ast.CallExpr{Fun: ast.NewIdent("dsimPoint"), Args: []ast.Expr{&ast.BasicLit{Kind: token.STRING, Value: `"codec"`}}}})
+					changed = true
+					points++
+				}
+			}
+			bl.List = out
+			return true
+		})
 		if !changed {
 			continue
 		}
@@ -171,5 +216,5 @@ func main() {
 	if err := os.WriteFile(filepath.Join(out, "overlay.json"), b, 0o644); err != nil {
 		panic(err)
 	}
-	fmt.Printf("mkoverlay: %d lock call sites rewritten in %d files\n", rewritten, len(replace)-1)
+	fmt.Printf("mkoverlay: %d lock call sites rewritten, %d codec points added, in %d files\n", rewritten, points, len(replace)-1)
 }
